@@ -126,9 +126,11 @@ impl<'i> AttributeMatcher<'i> {
         self.value_matches(&operand.name, |actual_value| {
             let case_sensitivity = to_unconditional(operand.case_sensitivity, self.is_html_element);
 
-            actual_value
-                .split(|&b| is_attr_whitespace(b))
-                .any(|part| case_sensitivity.eq(part, &operand.value))
+            // an empty operand never matches (Selectors Level 4, 6.1)
+            !operand.value.is_empty()
+                && actual_value
+                    .split(|&b| is_attr_whitespace(b))
+                    .any(|part| case_sensitivity.eq(part, &operand.value))
         })
     }
 
@@ -139,7 +141,8 @@ impl<'i> AttributeMatcher<'i> {
 
             let prefix_len = operand.value.len();
 
-            !actual_value.is_empty()
+            // an empty operand never matches (Selectors Level 4, 6.2)
+            prefix_len != 0
                 && actual_value.len() >= prefix_len
                 && actual_value
                     .get(..prefix_len)
@@ -173,7 +176,8 @@ impl<'i> AttributeMatcher<'i> {
             let suffix_len = operand.value.len();
             let value_len = actual_value.len();
 
-            !actual_value.is_empty()
+            // an empty operand never matches (Selectors Level 4, 6.2)
+            suffix_len != 0
                 && value_len >= suffix_len
                 && actual_value
                     .get(value_len - suffix_len..)
